@@ -291,7 +291,12 @@ pub fn build(d: &mut Dna, cfg: &GenCfg) -> Built {
     if cfg.raw_idents && cfg.field_names.is_none() {
         fnames.extend(RAW_FIELD_NAMES.iter().map(|s| s.to_string()));
     }
-    let vnames = pool_or(&cfg.variant_names, &VARIANT_NAMES);
+    let mut vnames = pool_or(&cfg.variant_names, &VARIANT_NAMES);
+    if cfg.variant_names.is_some() && !vnames.is_empty() {
+        // a hostile pool: start anywhere in it, so that every name gets to be a variant name
+        let k = d.pick(vnames.len());
+        vnames.rotate_left(k);
+    }
 
     // ---------------------------------------------------------------- variants and shapes
     let nvariants = match kind {
@@ -1384,7 +1389,7 @@ pub fn build(d: &mut Dna, cfg: &GenCfg) -> Built {
             }
         }
     }
-    let mut spec = TypeSpec { kind, name: type_name, gens, repr, traits: tattrs, split: d.byte(), variants, raw: vec![], extra_items: vec![], noise: vec![], disc_shift: 0, via_macro: 0, type_expr_expect: None };
+    let mut spec = TypeSpec { kind, name: type_name, gens, repr, traits: tattrs, split: d.byte(), variants, raw: vec![], extra_items: vec![], noise: vec![], disc_shift: 0, via_macro: 0, method_alias: vec![], type_expr_expect: None };
 
     // type-level Default expression: a full constructor of the default variant, all fields value 1
     if type_level_default_expr {
